@@ -144,3 +144,8 @@ SQL_FUNCTION_FORM_CAVEATS = {
 # forbids these names in ordered windows (expr_rep.fn_names_that_contradict_ordered_windowed_situation).
 WHOLE_PARTITION_AGGREGATORS = {"all", "any", "any_value", "count", "max", "mean", "median", "min", "nunique", "prod", "size", "_size", "sum",
                                "std", "var"}
+
+
+# numpy / pandas comparisons never return a missing value: with a NaN (missing) operand == < <= > >= give False and != gives True.
+# SQL comparisons are three-valued: any NULL operand gives NULL (which select_rows / WHERE treats as "not true", and NOT NULL is NULL).
+PANDAS_COMPARISON_ON_NULL = {"==": False, "!=": True, "<": False, "<=": False, ">": False, ">=": False}
